@@ -7,6 +7,7 @@ import BioscrapeModel.Model.Sensitivity
 import BioscrapeModel.Model.Deterministic
 import BioscrapeModel.Model.Expr
 import BioscrapeModel.Model.Sbml
+import BioscrapeModel.Model.Lineage
 
 /-
 `modeldriver`: one JSON job per input line, one JSON answer per output line
@@ -465,6 +466,133 @@ def jobAnnot (j : Json) : Except String Json := do
   return Json.mkObj [("text", Json.str (String.ofList text)),
     ("decoded", Json.arr (back.map (fun kv => Json.arr #[Json.str (String.ofList kv.1), Json.str (String.ofList kv.2)])).toArray)]
 
+
+/-! ### division and lineage -/
+
+def decVolSplit (s : String) : Except String VolSplit :=
+  match s with
+  | "binomial" => pure .binomial
+  | "duplicate" => pure .duplicate
+  | "perfect" => pure .perfect
+  | t => throw s!"bad volume split {t}"
+
+def decSplitter (j : Json) : Except String (Splitter α) := do
+  return { vs := ← decVolSplit (← getStrField j "volume"), noise := ← getNum j "noise",
+           perfect := ← getNatList j "perfect", binomial := ← getNatList j "binomial" }
+
+def encDaughters (d : Daughters α) : Json :=
+  Json.mkObj [("d", encList d.dState), ("e", encList d.eState), ("dVol", Codec.enc d.dVol), ("eVol", Codec.enc d.eVol)]
+
+/-- `VolumeSplitter.py_partition` after seeding. -/
+def jobPartition (j : Json) : Except String Json := do
+  let kind ← getStrField j "kind"
+  let state ← getNumList (α := α) j "state"
+  let vol : α ← getNum j "vol"
+  let g0 ← Uniform.init (α := α) j
+  let gen := Uniform.gen (α := α)
+  match kind with
+  | "perfectbinomial" => return encDaughters (partitionPerfectBinomial gen state vol g0).1
+  | "general" =>
+    return encDaughters (partitionGeneral gen (← getNum j "noise") (← getNum j "eps8") (← getNatList j "perfect")
+      (← getNatList j "binomial") state vol g0).1
+  | "lineage" =>
+    let sp ← decSplitter (α := α) j
+    return encDaughters (partitionLineage gen sp.vs sp.noise (← getNum j "eps8") sp.perfect sp.binomial state vol g0).1
+  | k => throw s!"bad splitter kind {k}"
+
+def optNat (j : Json) (k : String) : Option Nat := (getNatField j k).toOption
+
+def decVolRule (j : Json) : Except String (VolRule α) := do
+  match ← getStrField j "type" with
+  | "linear" => return .linear (← getNatField j "growth") (optNat j "noise")
+  | "multiplicative" => return .mult (← getNatField j "growth") (optNat j "noise")
+  | "assignment" => return .assign (← decTerm (← j.getObjVal? "term"))
+  | "ode" => return .ode (← decTerm (← j.getObjVal? "term"))
+  | t => throw s!"bad volume rule {t}"
+
+def decDivRule (j : Json) : Except String (DivRule α) := do
+  match ← getStrField j "type" with
+  | "time" => return .time (← getNatField j "thr") (optNat j "noise")
+  | "volume" => return .volume (← getNatField j "thr") (optNat j "noise")
+  | "deltaV" => return .deltaV (← getNatField j "thr") (optNat j "noise")
+  | "general" => return .general (← decTerm (← j.getObjVal? "term"))
+  | t => throw s!"bad division rule {t}"
+
+def decDeathRule (j : Json) : Except String (DeathRule α) := do
+  let comp : Int := match j.getObjVal? "comp" with
+    | .ok c => (c.getInt?).toOption.getD 1
+    | .error _ => 1
+  match ← getStrField j "type" with
+  | "species" => return .species (← getNatField j "sp") (← getNatField j "thr") comp (optNat j "noise")
+  | "param" => return .param (← getNatField j "par") (← getNatField j "thr") comp (optNat j "noise")
+  | "general" => return .general (← decTerm (← j.getObjVal? "term"))
+  | t => throw s!"bad death rule {t}"
+
+def decVolEvent (j : Json) : Except String (VolEvent α) := do
+  match ← getStrField j "type" with
+  | "linear" => return .linear (← getNatField j "growth")
+  | "multiplicative" => return .mult (← getNatField j "growth")
+  | "general" => return .general (← decTerm (← j.getObjVal? "term"))
+  | t => throw s!"bad volume event {t}"
+
+def decCellModel (j : Json) : Except String (CellModel α) := do
+  let arr (k : String) := ((getArr j k).toOption.getD #[]).toList
+  return { nSpecies := ← getNatField j "nSpecies",
+           props := ← (arr "props").mapM (decProp (α := α)),
+           evProps := ← (arr "evProps").mapM (decProp (α := α)),
+           U := ← decIntCols j "U",
+           rules := ← (arr "rules").mapM (decRule (α := α)),
+           volRules := ← (arr "volRules").mapM (decVolRule (α := α)),
+           divRules := ← (arr "divRules").mapM (decDivRule (α := α)),
+           deathRules := ← (arr "deathRules").mapM (decDeathRule (α := α)),
+           volEvents := ← (arr "volEvents").mapM (decVolEvent (α := α)),
+           nDivEvents := ← getNatField j "nDivEvents", nDeathEvents := ← getNatField j "nDeathEvents",
+           twoPi := ← getNum j "twoPi", eps := ← getNum j "eps9", tol := ← getNum j "tol" }
+
+def decCell (j : Json) : Except String (Cell α) := do
+  return { state := ← getNumList j "state", vol := ← getNum j "vol", time := ← getNum j "time", v0 := ← getNum j "v0",
+           t0 := ← getNum j "t0", divided := -1, dead := -1 }
+
+def encResult (r : CellResult α) : List (String × Json) :=
+  [("times", encList r.times), ("rows", Json.arr (r.rows.map encList).toArray), ("vols", encList r.vols),
+   ("divided", Json.num (JsonNumber.fromInt r.divided)), ("dead", Json.num (JsonNumber.fromInt r.dead))]
+
+/-- `py_SimulateSingleCell` (`"single": true`) or `py_SimulateCellLineage` after seeding. -/
+def jobLineage (j : Json) : Except String Json := do
+  let m ← decCellModel (α := α) j
+  let p0 ← getNumList (α := α) j "p"
+  let times ← getNumList (α := α) j "times"
+  let cells ← (← getArr j "cells").toList.mapM (decCell (α := α))
+  let cellFuel := (getNatField j "cellFuel").toOption.getD 200000
+  let fuel := (getNatField j "fuel").toOption.getD 4000
+  let g0 ← Uniform.init (α := α) j
+  let gen := Uniform.gen (α := α)
+  if getBoolD j "single" false then
+    let v ← match cells with
+      | v :: _ => pure v
+      | [] => throw "no cell"
+    let (r, p, _) := simulateCell gen m p0 times v cellFuel g0
+    let status := if r.bad then "bad" else if r.raised then "raised" else "ok"
+    return Json.mkObj ([("status", Json.str status), ("params", encList p)] ++ encResult r)
+  else
+    let rs ← ((getArr j "ruleSplitters").toOption.getD #[]).toList.mapM (decSplitter (α := α))
+    let es ← ((getArr j "eventSplitters").toOption.getD #[]).toList.mapM (decSplitter (α := α))
+    match simulateLineage gen m (← getNum j "eps8") (← getNum j "eps12") rs es times cells p0 fuel cellFuel g0 with
+    | none => return Json.mkObj [("status", Json.str "out-of-fuel")]
+    | some (f, c) =>
+      let final := times.getD (times.length - 1) 0
+      let tooFast := f.queue.any (fun q => fateOf final m.eps q.1 == Fate.tooFast)
+      let status := if c.bad then "bad" else if c.raised then "raised" else if tooFast then "too-fast" else "ok"
+      let optN (o : Option Nat) : Json := match o with
+        | some n => Json.num (JsonNumber.fromNat n)
+        | none => Json.null
+      let nodes := f.nodes.map (fun nd => Json.mkObj (encResult nd.result ++
+        [("parent", optN nd.parent),
+         ("daughters", match nd.daughters with
+            | some (a, b) => Json.arr #[Json.num (JsonNumber.fromNat a), Json.num (JsonNumber.fromNat b)]
+            | none => Json.null)]))
+      return Json.mkObj [("status", Json.str status), ("nodes", Json.arr nodes.toArray), ("params", encList c.p)]
+
 def dispatch (op : String) (j : Json) : Except String Json :=
   match op with
   | "prop" => jobProp (α := α) j
@@ -481,6 +609,8 @@ def dispatch (op : String) (j : Json) : Except String Json :=
   | "rhs" => jobRhs (α := α) j
   | "formula" => jobFormula (α := α) j
   | "klaw" => jobKlaw (α := α) j
+  | "partition" => jobPartition (α := α) j
+  | "lineage" => jobLineage (α := α) j
   | _ => throw s!"unknown op {op}"
 end
 
